@@ -24,6 +24,7 @@ func Spec() *run.Spec {
 			"then S1 = App.Schema(), a fresh generator.App applies S1, and the two applications are compared through public observers (node ids and types, per node the map input name -> dependency id:port with array inputs by position, parameter ToMessage()/name/Schema(), producers, metadata tree, application fields), every producer's artifact is generated on both sides and compared, and S2 = fresh.Schema() must equal S1 byte for byte. The harness keeps a mirror of every SetMetadata / DeleteMetadata call; the tree the edited application hands out, the metadata in the saved file, the tree of the reloaded application, every node's Schema() metadata and Schema().Notes (edited and reloaded) must equal the mirror as canonical JSON ([] is not null, {} is not null). " +
 			"Non-trivial: the saved graph has an array input with >= 10 connections or >= 3 parameter types. Distinctness: start state / node-count bucket / longest array bucket / parameter-type count / producer count / deletions / metadata. " +
 			"phase large-arrays: one array input of an order-sensitive harness node receives 352, 1000-1200, 256, 600, 257, 400, 100, 255 (then also random 100-1200) connections from 3-12 sources (parameters and harness nodes of the element type, random picks), with 2-4 disconnects in the middle, a few intermediate saves (one of them reloaded and compared, mostly past position 256), a text producer over the array where the node is string-valued; then the same save / reload / compare / re-save / artifact checks. " +
+			"phase autosave: the path-based saver of the editor: the case writes a small graph file into its scratch directory, runs the application's own entry point on it (<app> graph.json edit -autosave on a free loopback port) and posts 30-70 edits over HTTP (create / delete node, connect / disconnect, parameter value / name / description with long and short texts taking turns, set / delete metadata); every handler saves before it answers, so after every answered edit the file on disk must equal App.Schema() of the served application byte for byte; at the end the file is loaded into a fresh application and compared (structure, metadata by content). " +
 			"phase ufo: the shipped examples/graphs/ufo.json: load -> save must reproduce the file, S1 into three fresh applications (structure, S2 == S1, artifacts; a producer whose three artifacts are not pairwise identical is excluded as non-deterministic; .glb compared after parsing).",
 		Assumptions: []string{
 			"parameter messages are valid JSON for the parameter type (rejected messages are counted, not compared); vector components exclude -0 (vector types print it as 0)",
@@ -34,8 +35,8 @@ func Spec() *run.Spec {
 		},
 		MinNontrivial: map[string]int{"quick": 40, "thorough": 200},
 		MinObservedTier: map[string]map[string]int64{
-			"quick":    {"large_arrays_ge256": 5, "large_arrays_ge352": 4, "large_arrays_ge1000": 1, "large_array_connections": 2500},
-			"thorough": {"large_arrays_ge256": 50, "large_arrays_ge352": 35, "large_arrays_ge1000": 8, "large_array_connections": 30000},
+			"quick":    {"saves_shorter_than_the_previous_save": 40, "autosaves_compared_with_the_file_on_disk": 200, "autosaved_files_loaded_into_a_fresh_application": 6, "large_arrays_ge256": 5, "large_arrays_ge352": 4, "large_arrays_ge1000": 1, "large_array_connections": 2500},
+			"thorough": {"saves_shorter_than_the_previous_save": 300, "autosaves_compared_with_the_file_on_disk": 1500, "autosaved_files_loaded_into_a_fresh_application": 45, "large_arrays_ge256": 50, "large_arrays_ge352": 35, "large_arrays_ge1000": 8, "large_array_connections": 30000},
 		},
 		MinObserved: map[string]int64{
 			"saved_graphs_array_ge10":                                   20,
@@ -77,6 +78,12 @@ func Spec() *run.Spec {
 				}
 				return 6
 			}, Run: largeArrayCase, Batch: 2, CPUBudgetS: 120},
+			{Name: "autosave", Cases: func(t string) int {
+				if t == "thorough" {
+					return 60
+				}
+				return 8
+			}, Run: autosaveCase, Batch: 4, CPUBudgetS: 120, Parallel: 4},
 			{Name: "ufo", Cases: func(t string) int {
 				if t == "thorough" {
 					return 4
@@ -437,6 +444,13 @@ func checkPostedMetadata(res *run.Result, h *hist, file []byte, orig, re *snapsh
 		violate("reloaded-metadata-differs-from-what-was-posted", "graph.Instance.Schema notes after reload",
 			fmt.Sprintf("Schema().Notes after reload %s, posted %s", clip(re.Notes, 300), clip(wantNotes, 300)))
 	}
+}
+
+func lastOp(ops []string) string {
+	if len(ops) == 0 {
+		return "start"
+	}
+	return ops[len(ops)-1]
 }
 
 func imin(a, b int) int {
